@@ -139,7 +139,7 @@ fn crate_relative(f: &str) -> String {
 }
 #[derive(Debug, Clone)]
 pub struct Panic { pub loc: String, pub msg: String }
-impl Panic { pub fn class(&self) -> String { let m: String = self.msg.chars().take(60).collect(); m.split(|c: char| c.is_ascii_digit()).next().unwrap_or("").trim().to_string() } }
+impl Panic { pub fn class(&self) -> &'static str { let m = &self.msg; if m.contains("`Result::unwrap()` on an `Err`") || m.contains("`Result::expect") { "unwrap-on-Err" } else if m.contains("`Option::unwrap()` on a `None`") || m.contains("`Option::expect") { "unwrap-on-None" } else if m.contains("assertion") { "assertion" } else if m.contains("explicit panic") { "explicit-panic" } else if m.contains("overflow") { "arithmetic-overflow" } else if m.contains("index out of bounds") || m.contains("out of range") { "out-of-bounds" } else { "other" } } }
 pub fn catch<T>(f: impl FnOnce() -> T) -> Result<T, Panic> {
     IN_CATCH.with(|c| c.set(c.get() + 1));
     let r = std::panic::catch_unwind(std::panic::AssertUnwindSafe(f));
